@@ -260,6 +260,99 @@ pub fn guarded<T>(f: impl FnOnce() -> T) -> Result<T, PanicInfo> {
     }
 }
 
+// ------------------------------------------------------------------------------------------
+// Crash slots: the text under evaluation is noted in a small memory-mapped file per worker
+// thread, so that a death of the whole process that `catch_unwind` cannot intercept (stack
+// overflow, abort) can be attributed afterwards: `./check` then re-runs every noted text in a
+// child process of its own (`oq3v aftermath`), and a child that dies from a signal is a
+// violation with that text as replay input.
+// ------------------------------------------------------------------------------------------
+
+const SLOT_CAP: usize = 1 << 17;
+static SLOT_ID: AtomicU64 = AtomicU64::new(0);
+
+struct Slot {
+    ptr: *mut u8,
+}
+
+thread_local! {
+    static SLOT: RefCell<Option<Slot>> = RefCell::new(None);
+}
+
+pub fn slots_dir(pid: u32) -> PathBuf {
+    verif_root().join("harness").join("target").join("work").join(format!("{pid}")).join("slots")
+}
+
+fn open_slot() -> Option<Slot> {
+    use std::os::unix::io::AsRawFd;
+    let dir = slots_dir(std::process::id());
+    std::fs::create_dir_all(&dir).ok()?;
+    let n = SLOT_ID.fetch_add(1, Ordering::Relaxed);
+    let f = std::fs::OpenOptions::new().read(true).write(true).create(true).truncate(true).open(dir.join(format!("{n}.slot"))).ok()?;
+    f.set_len(SLOT_CAP as u64).ok()?;
+    let ptr = unsafe { libc::mmap(std::ptr::null_mut(), SLOT_CAP, libc::PROT_READ | libc::PROT_WRITE, libc::MAP_SHARED, f.as_raw_fd(), 0) };
+    if ptr == libc::MAP_FAILED {
+        return None;
+    }
+    Some(Slot { ptr: ptr as *mut u8 })
+}
+
+/// Note the text that is about to be handed to the code under test (`stage` 1 = lexing/parsing,
+/// 2 = semantic analysis). Texts that do not fit are noted as absent.
+pub fn note_case(stage: u8, text: &str) {
+    SLOT.with(|s| {
+        let mut s = s.borrow_mut();
+        if s.is_none() {
+            *s = open_slot();
+        }
+        if let Some(slot) = s.as_ref() {
+            let b = text.as_bytes();
+            let n = if b.len() + 8 <= SLOT_CAP { b.len() } else { 0 };
+            unsafe {
+                // invalidate, write, publish: [len u32][stage u8][0 0 0][bytes]
+                std::ptr::write_volatile(slot.ptr as *mut u32, u32::MAX);
+                std::ptr::write_volatile(slot.ptr.add(4), if n == b.len() { stage } else { 0 });
+                std::ptr::copy_nonoverlapping(b.as_ptr(), slot.ptr.add(8), n);
+                std::ptr::write_volatile(slot.ptr as *mut u32, n as u32);
+            }
+        }
+    });
+}
+
+/// The case is over: nothing to attribute any more.
+pub fn clear_case() {
+    SLOT.with(|s| {
+        if let Some(slot) = s.borrow().as_ref() {
+            unsafe { std::ptr::write_volatile(slot.ptr.add(4), 0) };
+        }
+    });
+}
+
+/// Read back the noted texts of a dead process: (stage, text).
+pub fn read_slots(pid: u32) -> Vec<(u8, String)> {
+    let mut out = vec![];
+    if let Ok(rd) = std::fs::read_dir(slots_dir(pid)) {
+        for e in rd.flatten() {
+            if let Ok(b) = std::fs::read(e.path()) {
+                if b.len() < 8 {
+                    continue;
+                }
+                let n = u32::from_le_bytes([b[0], b[1], b[2], b[3]]) as usize;
+                let stage = b[4];
+                if stage == 0 || n == u32::MAX as usize || 8 + n > b.len() {
+                    continue;
+                }
+                if let Ok(t) = std::str::from_utf8(&b[8..8 + n]) {
+                    out.push((stage, t.to_string()));
+                }
+            }
+        }
+    }
+    out.sort();
+    out.dedup();
+    out
+}
+
 pub fn is_harness_panic(p: &PanicInfo) -> bool {
     p.file.contains("harness/src") || p.file.starts_with("src/")
 }
@@ -765,6 +858,10 @@ pub fn start_watchdog() {
                 idle += 5;
                 if idle >= WATCHDOG_SECS {
                     println!("INCONCLUSIVE: watchdog: no progress for {WATCHDOG_SECS}s (hang or extremely slow case)");
+                    // the inputs that were being handled when progress stopped
+                    for (stage, text) in read_slots(std::process::id()) {
+                        println!("  in {}: {:?}", if stage == 1 { "lexing/parsing" } else { "semantic analysis" }, text.chars().take(300).collect::<String>());
+                    }
                     std::process::exit(2);
                 }
             } else {
